@@ -70,6 +70,9 @@ func main() {
 	case "dump-annotations":
 		b, _ := json.MarshalIndent(props.C09DumpAnnotations(), "", " ")
 		os.Stdout.Write(append(b, '\n'))
+	case "dump-nastype-hashes":
+		b, _ := json.MarshalIndent(props.C09DumpHashes(), "", " ")
+		os.Stdout.Write(append(b, '\n'))
 	case "dump-source-words":
 		b, _ := json.MarshalIndent(props.C14DumpSourceWords(), "", " ")
 		os.Stdout.Write(append(b, '\n'))
